@@ -18,7 +18,7 @@ func baseProfile(name string) *Profile {
 		FeeW:    []int{3, 3, 2, 1, 1},
 		ScaleW:  []int{5, 2, 2, 1},
 		PassW:   []int{6, 2, 2, 1},
-		GasCutP: 0.06, BatchP: 0.15, DupP: 0.08, TimeoutP: 0.1, SingleTxP: 0.5, EmptyFeeP: 0.04, InitLimitP: 0.35, SimP: 0.12, GhostTokenP: 0.0015,
+		GasCutP: 0.06, BatchP: 0.15, DupP: 0.08, TimeoutP: 0.1, SingleTxP: 0.5, EmptyFeeP: 0.04, InitLimitP: 0.35, SimP: 0.12, CrashP: 0.04, GhostTokenP: 0.0015, BigBatchP: 0.04,
 		StoreDigests: true,
 		EvidenceRule: "each evaluation is one seeded simulated run: a generated schedule of 25-70 actor events (remote users, relayers, consensus, orbiter authority, downstream admins, dust depositor, byzantine chain, operator) executed against the real application, followed by a drain (faults healed, everything relayed, one probe per route). A run is non-trivial when at least one rule of this property was actually evaluated in it; distinct_nontrivial counts distinct abstract states at packet-delivery instants (paused-protocol set, paused-pair set, paused-action set, limit bucket, number of statistics keys, dust present, environment-health vector, route, receiver encoding).",
 	}
@@ -108,10 +108,14 @@ func profileFor0(name string) *Profile {
 		p.BatchP = 0.3
 	case "C16":
 		p.W["sendodd"], p.W["byz"], p.W["sendout"], p.W["dust"] = 14, 10, 8, 10
+		p.RefuseKinds = []string{"C16"}
+		p.ClassW["refuse"] = 16
+		p.RouteW = []int{2, 5, 3}
 		p.InitLimitP = 0.6
 		p.PassW = []int{3, 4, 2, 1}
 	case "C17":
 		p.Checkpoint = []string{"genesis"}
+		p.BigBatchP = 0.15
 		p.W["checkpoint"], p.W["orbadmin"] = 2, 14
 	case "C18":
 		p.Checkpoint = []string{"pausequeries"}
@@ -119,7 +123,7 @@ func profileFor0(name string) *Profile {
 		p.Shadows = []string{"limitup"}
 		p.PassW = []int{2, 3, 4, 3}
 	case "C19":
-		p.GhostTokenP = 0.008
+		p.GhostTokenP, p.CrashP = 0.008, 0.12
 		p.Special = specialC19
 		p.TraceCheck = traceCheckC19
 		p.CrossProcess = func(seed uint64) bool { return seed%8 == 0 }
